@@ -15,7 +15,24 @@ type Apk struct {
 }
 
 // ApkParse parses C14's well-formed subset (no leading zeros, known suffix names, no ~hash).
+var apkMemo = map[string]*Apk{}
+
 func ApkParse(s string) (*Apk, bool) {
+	if p, hit := apkMemo[s]; hit {
+		return p, p != nil
+	}
+	p, ok := apkParseUncached(s)
+	if len(apkMemo) < 1<<20 {
+		if ok {
+			apkMemo[s] = p
+		} else {
+			apkMemo[s] = nil
+		}
+	}
+	return p, ok
+}
+
+func apkParseUncached(s string) (*Apk, bool) {
 	m := apkWellFormed.FindStringSubmatch(strings.TrimSpace(s))
 	if m == nil {
 		return nil, false
